@@ -121,7 +121,9 @@ impl ReactiveNode for RwLock<SubscriberSet> {
     fn mark_check(&self) {}
 
     fn mark_subscribers_check(&self) {
-        let subs = self.write().unwrap().take();
+        // notify a snapshot and keep the set: a subscriber stays subscribed until
+        // it clears its own sources (like the `AsSubscriberSet` impl above)
+        let subs = self.read().unwrap().clone();
         for sub in subs {
             sub.mark_dirty();
         }
